@@ -34,6 +34,7 @@ type Step struct {
 	Tags     string        `json:"tags,omitempty"`
 	Faults   []world.Fault `json:"faults,omitempty"`
 	Iter     string        `json:"iter,omitempty"`
+	HdrRel   bool          `json:"hdrrel,omitempty"` // -header_file given as a path relative to the working directory
 	NoGo     bool          `json:"nogo,omitempty"` // the loader's `go list` subprocess is unavailable or fails (GoFault says how; "" = `go` not on PATH)
 	GoFault  string        `json:"gofault,omitempty"` // list-exit1 | list-killed-midway | list-partial: a `go` shim in front of the real tool fails every `go list`
 	EnvTags  bool          `json:"envtags,omitempty"` // the environment's GOFLAGS carries build tags (not an option of the invocation: nothing may change)
@@ -270,6 +271,10 @@ func genCmd(r *rand.Rand, prop string, names, nonlib []string, cur map[string]st
 		switch r.IntN(6) {
 		case 0, 1:
 			st.Patterns = []string{"./..."}
+			if r.IntN(5) == 0 {
+				// overlapping patterns: everything, and one package once more
+				st.Patterns = append(st.Patterns, "./"+pick(r, nonlib))
+			}
 		case 2:
 			one := pick(r, nonlib)
 			st.Patterns = []string{"./" + one}
@@ -300,6 +305,7 @@ func genCmd(r *rand.Rand, prop string, names, nonlib []string, cur map[string]st
 	if st.Cmd != "default" && r.IntN(100) < optRate {
 		if (st.Cmd == "gen" || st.Cmd == "diff") && r.IntN(2) == 0 {
 			st.Header = "good"
+			st.HdrRel = r.IntN(3) == 0
 		}
 		if st.Cmd == "gen" && r.IntN(3) == 0 {
 			st.Prefix = pick(r, []string{"x_", "zz", "v1.gen."})
